@@ -14,6 +14,11 @@ CLAIMED = {
         note="Trusted: the syntax table (Appendix B / vlib/specgen.py) as the statement of the bitstream syntax; Lean kernel; correspondence harness.",
         design="DESIGN.md section 7 C02",
         technique="Lean 4 proof (classification table) + independent reference encoder + model/implementation correspondence"),
+    "C14": dict(
+        text="Executable Lean model of parse_rpu_file (chunk loop with carried tail, windows(4) start-code scan, per-chunk bail rules, final count check) compared with the real reader on generated files with chunk boundaries at every offset -4..+4 around start codes, exact multiples, corrupted entries, empty / start-code-less files; the expected list is computed from what was written (direct oracle). Lean theorems: a successful read is non-empty and complete by count, the empty file and a chunk without start code are errors.",
+        note="Trusted: Lean kernel, harness; regular-file reads are assumed full until EOF (hook chunk sizes >= 8192 keep that true); mid-file read errors are outside the quantifier. The unbounded round-trip theorem over all chunk sizes is stated in DESIGN.md, not yet proved.",
+        design="DESIGN.md section 7 C14",
+        technique="Lean 4 model of the chunked reader + model/implementation correspondence at targeted chunk alignments + direct oracle"),
     "C15": dict(
         text="Lean 4 theorems about the model of the EMDF variable_bits codec and header (variable_bits_roundtrip for every n and every value up to the two-group maximum, size_field_roundtrip for every size <= 65791, the fixed header bits); the model's wrap is compared with the real convert_regular_rpu_to_av1_payload per size (digest), and the property is evaluated directly on the real code with a valid RPU of every payload size in the tier's set (all 24..65791 in the thorough tier), with/without 0xB5, with trailing zeros.",
         note="Trusted: Lean kernel; correspondence harness; valid sized RPUs are built by padding the data before the CRC32.",
